@@ -489,16 +489,34 @@ impl AsRawFd for Driver {
 
 impl Drop for Driver {
     fn drop(&mut self) {
-        // Drain completed CQEs first to avoid double-free.
-        let mut cqueue = self.inner.completion();
-        cqueue.sync();
-        for entry in cqueue {
-            match entry.user_data() {
-                Self::CANCEL | Self::NOTIFY => {}
-                key => {
-                    self.in_flight.remove(&(key as usize));
-                    drop(unsafe { ErasedKey::from_raw(key as _) });
+        // Drain completed CQEs first to avoid double-free. Completions parked on the
+        // kernel's overflow list are flushed into the queue and drained as well.
+        loop {
+            let mut cqueue = self.inner.completion();
+            cqueue.sync();
+            for entry in cqueue {
+                match entry.user_data() {
+                    Self::CANCEL | Self::NOTIFY => {}
+                    // Not the last completion of a multishot operation: its key stays
+                    // in flight (one reference, whatever the number of completions).
+                    _ if more(entry.flags()) => {}
+                    // A completion that carries a buffer of the (already released)
+                    // buffer pool: nothing to hand over.
+                    key if io_uring::cqueue::buffer_select(entry.flags()).is_some() => {
+                        self.in_flight.remove(&(key as usize));
+                        drop(unsafe { ErasedKey::from_raw(key as _) });
+                    }
+                    key => {
+                        self.in_flight.remove(&(key as usize));
+                        // Hand the result to the operation before its key goes away: an
+                        // accepted or opened descriptor is owned (and closed) by the
+                        // operation only once `set_result` has seen it.
+                        create_entry(entry).notify();
+                    }
                 }
+            }
+            if !self.inner.submission().cq_overflow() || self.inner.submit().is_err() {
+                break;
             }
         }
 
